@@ -91,6 +91,7 @@ type retOutcome struct {
 type deferred struct {
 	call  *ast.CallExpr
 	frame *Frame
+	cond  *Term // nil: registered on every path; otherwise the condition under which it was registered
 }
 
 type Frame struct {
@@ -116,6 +117,7 @@ type loopCtx struct {
 type modLoc struct {
 	heap string
 	ref  *Term
+	elem Sort // element sort of the heap when known
 }
 type modElems struct {
 	heaps []string
@@ -171,6 +173,8 @@ type Exec struct {
 	loopEntry   []*State
 	rangeIdx    []*Term
 	visStack    []*Term // per enclosing map-range loop: the ghost set of keys already produced
+	epochMerges map[int]*epochMerge
+	dynLocs     []modLoc // places assumed unchanged by calls through function values (dyncall-preserves)
 	stableMaps  []stableMap // maps ranged over by enclosing loops that reason with visited(): they must not be written
 	framed      map[*Term]bool
 	fnSyms      map[string]*types.Func
@@ -250,16 +254,52 @@ func (x *Exec) heap(st *State, name string, elem Sort) *Term {
 	if h, ok := st.heaps[name]; ok {
 		return h
 	}
-	ep := st.epoch
+	// do not store into st.heaps: absence means "version of this epoch"
+	return x.heapOfEpoch(st.epoch, name, elem)
+}
+
+// epochMerge: an epoch created by merging states of different epochs. A heap
+// that none of the merged states had touched explicitly is, in the merged
+// state, the guarded choice between the parents' versions (built on demand).
+type epochMerge struct {
+	guards  []*Term
+	parents []epochParent
+	cache   map[string]*Term
+}
+
+type epochParent struct {
+	epoch int
+	heaps map[string]*Term
+}
+
+func (x *Exec) heapOfEpoch(ep int, name string, elem Sort) *Term {
 	if strings.HasPrefix(name, "ghost$") {
 		ep = 0
+	}
+	if em := x.epochMerges[ep]; em != nil {
+		if h, ok := em.cache[name]; ok {
+			return h
+		}
+		get := func(p epochParent) *Term {
+			if h, ok := p.heaps[name]; ok {
+				return h
+			}
+			return x.heapOfEpoch(p.epoch, name, elem)
+		}
+		r := get(em.parents[len(em.parents)-1])
+		for i := len(em.parents) - 2; i >= 0; i-- {
+			v := get(em.parents[i])
+			if v != r {
+				r = Ite(em.guards[i], v, r)
+			}
+		}
+		em.cache[name] = r
+		return r
 	}
 	sym := fmt.Sprintf("%s@%d", name, ep)
 	srt := ArraySort(elem)
 	x.consts[sym] = srt
-	h := Sym(sym, srt)
-	// do not store into st.heaps: absence means "version of this epoch"
-	return h
+	return Sym(sym, srt)
 }
 
 func (x *Exec) setHeap(st *State, name string, h *Term) { st.heaps[name] = h }
@@ -652,6 +692,25 @@ func (x *Exec) oblige(st *State, kind, label string, goal *Term, at ast.Node) {
 			}
 		}
 	}
+	if x.top.Flag("assume-safety") {
+		switch kind {
+		case "nil", "idx", "cast", "div", "shift", "unreachable", "arith", "ext":
+			// this unit's contract is about its functional clauses only: absence of
+			// run-time panics is assumed here (and listed), not proved
+			msg := fmt.Sprintf("%s assumes its own run-time safety (nil/index/cast/division/shift/unreachable obligations are not generated for it)", x.top.Name())
+			seen := false
+			for _, a := range x.assumed {
+				if a == msg {
+					seen = true
+				}
+			}
+			if !seen {
+				x.assumed = append(x.assumed, msg)
+			}
+			st.assume(goal)
+			return
+		}
+	}
 	o := &Obligation{Name: x.oblName(kind, label), Kind: kind, Func: x.top.Name(), Goal: goal, ex: x, Expect: "unsat"}
 	if at != nil {
 		o.Pos = x.p.relPos(at)
@@ -769,8 +828,47 @@ func (x *Exec) merge(n int, states []*State) *State {
 		}
 	}
 	if !sameEpoch {
+		em := &epochMerge{guards: guards, cache: map[string]*Term{}}
+		for _, s := range live {
+			hs := make(map[string]*Term, len(s.heaps))
+			for k, v := range s.heaps {
+				hs[k] = v
+			}
+			em.parents = append(em.parents, epochParent{epoch: s.epoch, heaps: hs})
+		}
 		out.epoch = x.newEpoch()
+		if x.epochMerges == nil {
+			x.epochMerges = map[int]*epochMerge{}
+		}
+		x.epochMerges[out.epoch] = em
+		keep := map[string]*Term{}
+		for k, v := range out.heaps {
+			if strings.HasPrefix(k, "ghost$") {
+				keep[k] = v
+			}
+		}
+		// ghost heaps are not epoch-versioned: merge them explicitly
+		gk := map[string]bool{}
+		for _, s := range live {
+			for k := range s.heaps {
+				if strings.HasPrefix(k, "ghost$") {
+					gk[k] = true
+				}
+			}
+		}
 		out.heaps = map[string]*Term{}
+		for _, k := range sortedKeys(gk) {
+			var srt Sort
+			for _, s := range live {
+				if h, ok := s.heaps[k]; ok {
+					srt = h.Sort
+				}
+			}
+			elem := Sort(string(srt)[len("(Array Int ") : len(srt)-1])
+			kk := k
+			out.heaps[k] = pick(func(s *State) *Term { return x.heap(s, kk, elem) })
+		}
+		_ = keep
 	} else {
 		hk := map[string]bool{}
 		for _, s := range live {
@@ -790,15 +888,34 @@ func (x *Exec) merge(n int, states []*State) *State {
 		}
 	}
 	out.alloc = pick(func(s *State) *Term { return s.alloc })
-	for _, s := range live[1:] {
-		if len(s.defers) != len(live[0].defers) {
-			x.unsupported(nil, "defer registered on only some of the paths that merge here")
-		}
-		for i := range s.defers {
-			if s.defers[i].call != live[0].defers[i].call || s.defers[i].frame != live[0].defers[i].frame {
-				x.unsupported(nil, "different deferred calls on merging paths")
+	// deferred calls: the common prefix stays; a defer registered on only some
+	// of the merging paths becomes conditional on that path's guard
+	{
+		np := len(live[0].defers)
+		for _, s := range live[1:] {
+			if len(s.defers) < np {
+				np = len(s.defers)
 			}
 		}
+		for i := 0; i < np; i++ {
+			for _, s := range live[1:] {
+				if s.defers[i] != live[0].defers[i] {
+					np = i
+					break
+				}
+			}
+		}
+		merged := append([]deferred(nil), live[0].defers[:np]...)
+		for i, s := range live {
+			for _, d := range s.defers[np:] {
+				c := guards[i]
+				if d.cond != nil {
+					c = And(c, d.cond)
+				}
+				merged = append(merged, deferred{call: d.call, frame: d.frame, cond: c})
+			}
+		}
+		out.defers = merged
 	}
 	gk := map[string]bool{}
 	for _, s := range live {
